@@ -95,10 +95,10 @@ class StatCheck(Check):
         return True
 
     def extra_evidence(self, merged):
-        recs = merged["records"]
-        trials = sum((r.get("extra") or {}).get("trials", 0) for r in recs)
-        hyp = sum((r.get("extra") or {}).get("hypotheses", 0) for r in recs)
-        pmins = [(r.get("extra") or {}).get("min_p", 1.0) for r in recs if (r.get("extra") or {}).get("min_p") is not None]
+        recs = merged["extras"]
+        trials = sum(r.get("trials", 0) for r in recs)
+        hyp = sum(r.get("hypotheses", 0) for r in recs)
+        pmins = [r.get("min_p", 1.0) for r in recs if r.get("min_p") is not None]
         return {"statistical": {"cells": len(recs), "trials": trials, "hypotheses_tested": hyp,
                                 "smallest_p_value": min(pmins) if pmins else None,
                                 "family_alpha": FAMILY_ALPHA,
